@@ -10,9 +10,10 @@ from ..terms import valida
 
 PROP = "C20"
 IMPORTS = "Py Check Html RunHtml Tree"
-THEOREMS = ["C20_html_balanced", "C20_escape_clean", "C20_html_escaped", "C20_code_clean"]
+THEOREMS = ["C20_html_balanced", "C20_escape_clean", "C20_html_escaped", "C20_code_clean", "C20_tree_each_rule_once", "C20_tree_parents",
+            "C20_tree_flat_nested_same_nodes", "C20_tree_required", "C20_tree_total", "C20_tree_subtree"]
 FACT_LEMMAS = []
-DEPENDS = ["Html.v", "RunHtml.v", "Proofs/C20Proof.v", "Properties/C20.v", "Py.v", "Check.v"]
+DEPENDS = ["Html.v", "RunHtml.v", "Tree.v", "Proofs/C20Proof.v", "Proofs/TreeProof.v", "Properties/C20.v", "Py.v", "Check.v"]
 ASSUMPTIONS = ["str() / repr() of parts, conditions and types is supplied by the implementation (oracle); the tree assembly "
                "(to_tree) is checked by the model-free oracle only, the HTML writer is modelled and proved",
                "anchor_root is caller-supplied id text inserted as it is; anchors are drawn from [A-Za-z0-9_-]+"]
